@@ -38,6 +38,14 @@ C14_NeverInward == IsNice => T.nlo <= T.lo + Tol /\ T.nhi >= T.hi - Tol
 C14_KeepsOrientation == IsNice => T.rev_in = T.rev_out
 C14_LessThanTwoSteps == IsNice => T.lo - T.nlo < 2 * StepQ + Tol /\ T.nhi - T.hi < 2 * StepQ + Tol
 NearMultiple(x, s, tol) == LET mm == ((x % s) + s) % s IN mm <= tol \/ s - mm <= tol
+\* known float artefact (finding F-14L): the first floor/ceil pass lands on a multiple k*s1 of the first-pass step s1
+\* that is not exactly representable; the second pass then sees (k*s1)/s1 = k -+ 1e-16 and moves the end one more
+\* whole step s1 outward, off the grid of the resulting (coarser) step.  Every other deviation is still a violation.
+DoubleWidenLo == \E s1 \in Steps(T.hi - T.lo, T.m) : CAbsL(T.nlo - (FloorDiv(T.lo, s1) * s1 - s1)) <= Tol
+DoubleWidenHi == \E s1 \in Steps(T.hi - T.lo, T.m) : CAbsL(T.nhi - (CeilDiv(T.hi, s1) * s1 + s1)) <= Tol
+C14_OnTenthOfStepExceptDoubleWiden == IsNice =>
+    /\ NearMultiple(10 * T.nlo, StepQ, 10 * Tol) \/ DoubleWidenLo
+    /\ NearMultiple(10 * T.nhi, StepQ, 10 * Tol) \/ DoubleWidenHi
 C14_OnTenthOfStep == IsNice => NearMultiple(10 * T.nlo, StepQ, 10 * Tol) /\ NearMultiple(10 * T.nhi, StepQ, 10 * Tol)
 
 \* ------------------------------------------------------------------ C12 (functional laws)
